@@ -10,6 +10,9 @@ from . import core, dp, locks
 
 PID = "C17"
 OPTS = ["-", "preload=true", "lrucache=true&lrucachesize=1000", "preload=false"]
+SPELL = ["lrucache=true&lrucachesize=1000", "lrucache=true&lrucachesize=01000", "lrucache=true&lrucachesize=%31000", "lrucache=true&lrucachesize=007",
+         "lrucachesize=1000&lrucache=true", "lrucache=true&lrucachesize=1000&x=1", "lrucache=%74rue&lrucachesize=1000&lrucachesize=5",
+         "preload=true", "preload=%74rue", "preload=true&preload=false", "-", "preload=tru%"]
 
 
 def datasets():
@@ -18,7 +21,8 @@ def datasets():
     return [d1, d2], {"fa": 2, "fb": 7}
 
 
-def gen_history(rng, maxlen):
+def gen_history(rng, maxlen, optlist=None):
+    optlist = optlist or OPTS
     ops, live, used, nh = [], [], 0, 0
     for _ in range(rng.randrange(3, maxlen + 1)):
         k = rng.random()
@@ -26,7 +30,7 @@ def gen_history(rng, maxlen):
             nh += 1
             h = "h%d" % nh
             f = rng.choice(["fa", "fa", "fb", "fb", "fmissing"])
-            o = rng.choice(OPTS + (["lrucache=true&lrucachesize=abc"] if rng.random() < 0.1 else []))
+            o = rng.choice(optlist + (["lrucache=true&lrucachesize=abc"] if rng.random() < 0.1 else []))
             ops.append(("DOPEN", h, f, o))
             if f != "fmissing" and "abc" not in o:
                 live.append(h)
@@ -121,6 +125,16 @@ def dynamic(rep, scratch, tier, seed):
         hist.append((ops, []))
     for _ in range(60 if tier == "quick" else 4000):
         hist.append(gen_history(rng, 14))
+    # the same options written differently (leading zeros, escapes, other order, repeated and
+    # unknown keys): the key a connection is cached under and the key it is released under must be
+    # the same one (Dsn.parse_dsn computes the model's key).  A separate random stream, so the
+    # histories above stay what they were.
+    rng2 = random.Random(seed * 7919 + 3)
+    for sp in SPELL[:4]:
+        hist.append(([("DOPEN", "h1", "fa", sp), ("DQUERY", "h1"), ("DCLOSE", "h1"), ("DOPEN", "h2", "fa", sp), ("DQUERY", "h2"), ("DCLOSE", "h2"),
+                      ("DOPEN", "h3", "fa", SPELL[0]), ("DOPEN", "h4", "fa", sp), ("DCLOSE", "h3"), ("DQUERY", "h4"), ("DCLOSE", "h4")], []))
+    for _ in range(40 if tier == "quick" else 2000):
+        hist.append(gen_history(rng2, 14, SPELL))
     results = []
 
     def work(i):
@@ -299,7 +313,7 @@ def run(rep, scratch, tier, seed, replay=None):
                           {"broken": "C17_locks / C17_single_section", "unknown_to_policy": ob.get("unknown_to_policy", ""), "coqc_output": ob["output"][-2500:]}, no_input=True)
     rep.coverage.update({
         "evaluations": nh + 15, "distinct_nontrivial": len(set(tuple(o[0] for o in h[0]) for h in hist)),
-        "rule": "well-formed histories of 3..14 driver.Conn-level operations (Open / query / Close) over 2 index files x option strings %s (+ missing file, + invalid cache size), each in a fresh process, compared with DriverSM.d_run (result class per operation; a query must return the count of its own file); database/sql scenarios: reopen after the last close, the same file under two option strings, pool sizes 1,2,4, first use by 2 and 16 goroutines; after the last close a non-blocking flock must succeed. Non-trivial = distinct operation-kind sequences." % OPTS,
+        "rule": "well-formed histories of 3..14 driver.Conn-level operations (Open / query / Close) over 2 index files x option strings %s (+ missing file, + invalid cache size, + the same options spelled differently: leading zeros, escapes, order, repeated keys), each in a fresh process, compared with DriverSM.d_run (result class per operation; a query must return the count of its own file); database/sql scenarios: reopen after the last close, the same file under two option strings, pool sizes 1,2,4, first use by 2 and 16 goroutines; after the last close a non-blocking flock must succeed. Non-trivial = distinct operation-kind sequences." % OPTS,
         "failures": nbad, "samples": [" ; ".join(" ".join(o) for o in hist[5][0])],
     })
     rep.assumptions += ["database/sql uses a driver.Conn only between its Open and its single Close (well-formed histories)",
